@@ -87,15 +87,15 @@ def to_shards(cases, per=40):
         I = Interner()
         body = coq_list([CL.coq_case(c["model"], c["corr"], c["obs"], I) for _, c in chunk])
         text = CL.HEADER + I.text() + "Definition cases : list case := {}.\n".format(body) + \
-            "Eval vm_compute in (bad_indices check_case cases).\n" + \
-            "Eval vm_compute in ([fold_right Nat.add 0%nat (map compared cases)]).\n"
+            "Eval vm_compute in (bad_indices check_case_fast cases).\n" + \
+            ("Eval vm_compute in ([fold_right Nat.add 0%nat (map compared cases)]).\n" if k == 0 else "")
         shards.append(text)
         index.append([i for i, _ in chunk])
     return shards, index
 
 
 def correspondence(ctx):
-    cases, res = run_cases(ctx, ctx.n(180, 4000))
+    cases, res = run_cases(ctx, ctx.n(220, 4000))
     res.rule = ("random expression DAGs built through the public API (1-4 measurements, 1-8 operations, operand forms "
                 "quantity-quantity / quantity-number / number-quantity / (value, error) pair, shared sub-results, random pairwise "
                 "correlations set before or after deriving); observed: value, error, sorted source ids, derivative w.r.t. every "
@@ -122,7 +122,7 @@ def correspondence(ctx):
                                                                   "change": c.get("change")}})
         if len(bad) > 1 and bad[1]:
             compared += bad[1][0]
-    res.extra["numbers_compared_in_Q"] = compared
+    res.extra["numbers_compared_in_Q_first_shard"] = compared
     return res
 
 
